@@ -11,6 +11,12 @@ pub mod c01;
 pub mod c02;
 pub mod c03;
 pub mod c04;
+pub mod c09;
+pub mod c10;
+pub mod c11;
+pub mod c15;
+pub mod c19;
+pub mod c20;
 
 pub fn level(prop: &str) -> &'static str {
 	match prop {
@@ -26,6 +32,12 @@ pub fn run(ctx: &Ctx) -> usize {
 		"C02" => c02::run(ctx),
 		"C03" => c03::run(ctx),
 		"C04" => c04::run(ctx),
+		"C09" => c09::run(ctx),
+		"C15" => c15::run(ctx),
+		"C19" => c19::run(ctx),
+		"C20" => c20::run(ctx),
+		"C10" => c10::run(ctx),
+		"C11" => c11::run(ctx),
 		p => panic!("unknown property {}", p),
 	}
 }
@@ -37,6 +49,12 @@ pub fn replay(ctx: &Ctx, kind: &str, params: &Value) -> Result<(), Fail> {
 		"C02" => c02::case(ctx, kind, params, false),
 		"C03" => c03::case(ctx, kind, params, false),
 		"C04" => c04::case(ctx, kind, params, false),
+		"C11" => c11::case(ctx, kind, params, false),
+		"C10" => c10::case(ctx, kind, params, false),
+		"C20" => c20::case(ctx, kind, params, false),
+		"C19" => c19::case(ctx, kind, params, false),
+		"C15" => c15::case(ctx, kind, params, false),
+		"C09" => c09::case(ctx, kind, params, false),
 		p => panic!("unknown property {}", p),
 	}
 }
